@@ -48,6 +48,7 @@ class Entry:
         self.const_proof = kw.pop('const_proof', None) # ghost block placed before the initialiser
         self.d1 = kw.pop('d1', False)   # generic D1: split or-patterns that carry a guard
         self.d8 = kw.pop('d8', False)   # generic D8: closure parameter `_` -> `_x`
+        self.with_scope = kw.pop('with_scope', None)   # D17: text of context.rs holding the macro definition -> expand with_scope!
         self.closures = kw.pop('closures', False)   # generic D3/D16: Option / iterator closures -> match / loop (vlib/closures.py)
         self.all_loops = kw.pop('all_loops', None)     # invariant text applied to every loop without its own
         self.depth = kw.pop('depth', 0)                # brace depth at which the item sits (nested inline modules)
@@ -471,6 +472,14 @@ class Unit:
             text, n1 = split_or_guards(text)
             if n1:
                 self.desugar_log.append(('D1', '%s: %d or-pattern arm(s) with a guard split into one arm per alternative' % (e.qualname, n1)))
+        if e.with_scope:
+            from .closures import expand_with_scope, NoRule
+            try:
+                text, nws = expand_with_scope(text, e.with_scope)
+            except NoRule as ex:
+                raise Undecided('D17 in %s: %s' % (e.qualname, ex))
+            if nws:
+                self.desugar_log.append(('D17', '%s: %d with_scope! invocation(s) expanded by the macro definition of context.rs' % (e.qualname, nws)))
         if e.closures:
             from .closures import desugar_closures, NoRule
             try:
@@ -536,8 +545,11 @@ class Unit:
             occ = g[3] if len(g) > 3 else 1
             idx = -1
             pos = 0
+            gmask = RustFile('<fn>', body).code
             for _ in range(occ):
                 idx = body.find(anchor, pos)
+                while idx >= 0 and not gmask[idx]:      # occurrences inside comments are not anchors
+                    idx = body.find(anchor, idx + 1)
                 if idx < 0:
                     break
                 pos = idx + 1
